@@ -21,5 +21,13 @@ NewClass == LET c == <<Violated, last.a, IF last.p = None THEN "-" ELSE loc[last
    p1, p2, p3 only (a symmetry reduction that loses no class) *)
 Idx(p) == CHOOSE i \in 1 .. 3 : <<"p1", "p2", "p3">>[i] = p
 StartOrder == \A p, q \in Procs : (Idx(p) < Idx(q) /\ loc[p].ph = "idle") => loc[q].ph = "idle"
+(* Coverage of the failing start-up calls: with INVARIANT NewFault (and -continue) TLC reports the
+   shortest behaviour that ends with a failing call for every class <<the call, what the other
+   participants are doing at that moment>> (classes seen so far in register 2).  The replay then
+   lets the error handler run and everybody else carry on. *)
+ASSUME TLCSet(2, {})
+NewFault == LET c == <<last.a, IF last.p = None THEN <<>> ELSE [q \in Procs \ {last.p} |-> loc[q].ph]>> IN
+            IF ~last.f \/ c \in TLCGet(2) THEN TRUE
+            ELSE TLCSet(2, TLCGet(2) \cup {c}) /\ FALSE
 Alias == [last |-> last, viol |-> Violated, ph |-> IF last.p = None THEN "-" ELSE loc[last.p].ph]
 =============================================================================
